@@ -8,5 +8,11 @@ CONSTANTS
   PKeys = {0, 1, 3}
   AKeys = {100}
   MaxOps = 2
+  Uni = "w"
+  MaxInit = 3
+  MaxReq = 4
+  Bigs = {TRUE, FALSE}
+  InMemory = TRUE
+  Levels = {0, 1}
 INVARIANTS EmitAll OnlyRequested
 CHECK_DEADLOCK FALSE
